@@ -308,7 +308,17 @@ impl Preprocessor {
                                 new_program.to_sexp(),
                             ));
 
-                            let compiled_program = self.opts.set_stdenv(false).compile_program(
+                            // The macro program only runs here, at compile time.  It
+                            // is compiled without optimization: the stepping 21
+                            // optimizer round-trips code through plain CLVM, which
+                            // turns the identifiers a macro quotes (such as @) into
+                            // integers that strict dialects then take as constants.
+                            let compiled_program = self
+                                .opts
+                                .set_stdenv(false)
+                                .set_optimize(false)
+                                .set_frontend_opt(false)
+                                .compile_program(
                                 &mut allocator,
                                 self.runner.clone(),
                                 program_sexp,
